@@ -5,16 +5,25 @@ predicted observable; (J) random 5-8-leaf trees evaluated by the real code are v
 import json
 from vlib import core
 
-DEV = "merge.history_aliases_receiver"
+DEV = "merge.history_aliases_receiver"          # repaired (fixed: line); kept as the vacuity guard of the merge laws
+DEV_DETAIL = "grpc.detail_after_inherited"      # EncodeError appends its error response after the details the wrapped status has
+WIRE = ("http", "hresp", "grpc", "gresp")
 
 
 def classify(vec, obs):
-    """Finding key from the failing case only."""
+    """Finding key: the known deviation that predicts exactly what was observed (the vector carries those
+    predictions as `alt`), else a key computed from the failing case only."""
+    alt = vec.get("alt") or {}
+    for d in sorted(alt):
+        if not core.deep_diff(norm(alt[d]), obs):
+            return d
     if vec["mode"] == "status":
         p = vec["pred"]
-        for k in ("http", "grpc", "rtname", "rtflags", "rtsame"):
+        sc = vec["scase"]
+        kind = sc["kind"] + ("" if sc["cause"]["ck"] in ("none", "plain") else "+" + sc["cause"]["ck"])
+        for k in WIRE:
             if p[k] != obs.get(k):
-                return "C18/status/%s/%s" % (vec["scase"]["kind"], k)
+                return "C18/status/%s/%s" % (kind, k)
         return "C18/status/other"
     p = vec["pred"]
     if p.get("kind") != obs.get("kind"):
@@ -22,6 +31,9 @@ def classify(vec, obs):
     for k in ("name", "msgs", "flags", "causes", "hist"):
         if p.get(k, []) != obs.get(k, []):
             return "C18/merge/" + k
+    for k in WIRE:
+        if (p.get("wire") or {}).get(k) != (obs.get("wire") or {}).get(k):
+            return "C18/merge/wire.%s%s" % (k, "+status-cause" if any(l["cause"]["ck"].startswith(("gst", "svcg")) for l in vec["leaves"]) else "")
     return "C18/merge/other"
 
 
@@ -33,9 +45,14 @@ def norm(o):
     return o
 
 
+def caused(leaf):
+    return leaf["cause"]["ck"] not in ("none", "plain")
+
+
 def compare(ctx, vectors, observations):
     by = {o["i"]: o["obs"] for o in observations}
     nontrivial = set()
+    ncause = set()
     for i, v in enumerate(vectors):
         if i not in by:
             raise core.Infra("driver returned no observation for vector %d" % i)
@@ -45,8 +62,12 @@ def compare(ctx, vectors, observations):
             nn = [l for l in v["leaves"] if l["kind"] != "nil"]
             if len(nn) >= 3 or any(l["kind"] in ("plain", "wrapped", "nsvc") for l in nn):
                 nontrivial.add(core.canon([v["leaves"], v["tree"]]))
+            if any(caused(l) for l in nn):
+                ncause.add(core.canon([v["leaves"], v["tree"]]))
         else:
             nontrivial.add(core.canon(v["scase"]))
+            if caused(v["scase"]):
+                ncause.add(core.canon(v["scase"]))
         d = core.deep_diff(pred, obs)
         if d:
             case = {"vector": v, "observed": obs, "diff": d}
@@ -54,40 +75,62 @@ def compare(ctx, vectors, observations):
                 json.dumps(pred, sort_keys=True)[:300], d), case)
         elif i % 4001 == 0:
             ctx.sample({"vector": v, "observed": obs})
+    ctx.cov["cases_with_a_status_or_service_error_cause"] = len(ncause)
     return nontrivial
 
 
 def run(ctx):
-    ctx.cov["rule"] = ("cases = every (leaf vector, parenthesisation) and every (kind, name, flags) status case enumerated by TLC "
-                       "from ErrorAlgebra.tla; non-trivial = merge with >=3 non-nil leaves or a plain/wrapped/caused leaf, or any status case; "
-                       "distinct = canonical JSON of the case")
+    import concurrent.futures as cf
+    ctx.cov["rule"] = ("cases = every (leaf vector, parenthesisation) and every (kind, name, flags, cause) status case enumerated by TLC "
+                       "from ErrorAlgebra.tla, each observed directly and on the wire (HTTP error response + status, gRPC code + "
+                       "EncodeError/DecodeError/NewServiceError round trip); non-trivial = merge with >=3 non-nil leaves or a "
+                       "plain/wrapped/caused leaf, or any status case; distinct = canonical JSON of the case")
     ctx.assumptions += ["message texts m<i> stand for arbitrary messages without the separator '; '",
-                        "the wrapper of a wrapped ServiceError is not counted as an original cause (MergeErrors documents the conversion)"]
+                        "the wrapper of a wrapped ServiceError is not counted as an original cause (MergeErrors documents the conversion)",
+                        "a gRPC status reachable by unwrapping keeps its code (as built: the first one in unwrapping order); the flags "
+                        "table is promised only for errors without one",
+                        "left out, nothing says what is right: an error that is no ServiceError and whose gRPC status already carries "
+                        "details; a GRPCStatus() returning nil in front of a real status inside a merge; a GRPCStatus() with code OK "
+                        "(status.Error never builds one; EncodeError returns nil for it)"]
     quick = ctx.quick()
     # (M) the design satisfies the algebraic laws: N = 1..3 (quick), 4 (thorough)
     # (the Gen configurations below check the same invariants while emitting vectors, so N <= 3 is not run twice)
-    # vacuity guard: the invariant bites when the (former) defect is modelled
-    ctx.mc_expect_violation("mc/MC_ErrorAlgebra", consts={"N": 2, "Deviations": '{"%s"}' % DEV}, label="MC deviation")
+    # vacuity guards: the invariants bite when the (former) defect / the detail order of EncodeError is modelled.
+    # The runs are independent: started side by side, results taken in order.
+    pool = cf.ThreadPoolExecutor(max_workers=8)
+    guards = [pool.submit(ctx.mc_expect_violation, "mc/MC_ErrorAlgebra", consts={"N": 2, "Deviations": '{"%s"}' % DEV}, label="MC deviation"),
+              pool.submit(ctx.mc_expect_violation, "mc/MC_ErrorAlgebra", consts={"N": 1, "Deviations": '{"%s"}' % DEV_DETAIL},
+                          label="MC deviation detail order")]
+    build = pool.submit(ctx.gobuild, "drivers/errors")
     # (G) vectors with predictions
+    # (N = 3 split in two runs: the trees over the first leaf family; the trees over the cause leaves + the status cases)
+    gens = [pool.submit(ctx.gen, "mc/MC_ErrorAlgebra", "gen/Gen_ErrorAlgebra.cfg", consts=c, label="Gen N=%d %s" % (c["N"], c["Family"]), timeout=900)
+            for c in [{"N": 3, "Family": '"base"'}, {"N": 3, "Family": '"cause"'}, {"N": 1, "Family": '"all"'}, {"N": 2, "Family": '"all"'}]]
+    pool.shutdown(wait=False)
+    guards[0].result()
+    r = guards[1].result()
+    if r.violated not in ("TopDecides", "StatusTotal"):
+        raise core.Infra("self-test: %s is expected to break TopDecides/StatusTotal, TLC reports %s" % (DEV_DETAIL, r.violated))
     vectors = []
-    for n in [1, 2, 3]:
-        vectors += ctx.gen("mc/MC_ErrorAlgebra", "gen/Gen_ErrorAlgebra.cfg", consts={"N": n}, label="Gen N=%d" % n, timeout=900).vectors
+    for g in (gens[2], gens[3], gens[1], gens[0]):
+        vectors += g.result().vectors
     if not quick:
         vectors += ctx.gen("mc/MC_ErrorAlgebra", "gen/Gen_ErrorAlgebra.cfg", consts={"N": 4, "Rich": "FALSE"}, label="Gen N=4",
                            timeout=3000, heap="24g").vectors
+    build.result()
     # status cases are emitted by every run: de-duplicate
     seen, uniq = set(), []
     for v in vectors:
-        k = core.canon({x: v[x] for x in v if x != "pred"})
+        k = core.canon({x: v[x] for x in v if x not in ("pred", "alt")})
         if k not in seen:
             seen.add(k)
             uniq.append(v)
     vectors = uniq
-    obs, _, _ = ctx.drive("drivers/errors", [{k: v[k] for k in v if k != "pred"} for v in vectors])
+    obs, _, _ = ctx.drive("drivers/errors", [{k: v[k] for k in v if k not in ("pred", "alt")} for v in vectors])
     nontrivial = compare(ctx, vectors, obs)
-    # (J) random larger trees, judged by TLC trace validation
+    # (J) random larger trees and random single errors, judged by TLC trace validation
     nrand = 300 if quick else 5000
-    _, tpath, _ = ctx.drive("drivers/errors", [], args=["-random", str(nrand)])
+    _, tpath, _ = ctx.drive("drivers/errors", [], args=["-random", str(nrand), "-random-status", str(nrand // 3)])
     lines = [l for l in open(tpath) if l.strip()]
     validate_trace(ctx, lines, nontrivial)
     ctx.cov["distinct_nontrivial"] = len(nontrivial)
@@ -96,29 +139,48 @@ def run(ctx):
         selftest(ctx, lines)
 
 
+def case_key(c):
+    return core.canon([c["leaves"], c["tree"]]) if c["ev"] == "case" else core.canon(c["scase"])
+
+
 def validate_trace(ctx, lines, nontrivial, maxfail=5):
     import os
+    import re
     rest = list(lines)
+    base = 0                                   # number of lines before rest[0]
     fails = 0
     while rest:
         d = ctx.subdir("trace")
         p = os.path.join(d, "trace.ndjson")
         open(p, "w").write("".join(rest))
         ok, hwm, r = ctx.trace_validate("trace/Trace_ErrorAlgebra", "trace/Trace_ErrorAlgebra.cfg", p)
-        if ok:
-            break
         if hwm is None:
             raise core.Infra("trace validation produced no high-water mark:\n" + r.stdout[-2000:])
+        # lines the design rejects and a known deviation predicts exactly: filed under the deviation's name
+        devlines = set()
+        for pr in r.prints:
+            m = re.match(r'<<"DEV", (\d+), "([^"]+)">>', pr)
+            if m and int(m.group(1)) < hwm:
+                devlines.add((int(m.group(1)), m.group(2)))
+        for ln, dev in sorted(devlines):
+            c = json.loads(rest[ln - 1])
+            ctx.violation(dev, "trace line %d matches the specification only under the deviation %s (%s)" % (
+                base + ln, dev, "random tree, %d leaves" % len(c["leaves"]) if c["ev"] == "case" else "single error"), {"trace_line": c})
+        ctx.cov["trace_lines_matched_under_a_known_deviation"] = ctx.cov.get("trace_lines_matched_under_a_known_deviation", 0) + len(devlines)
+        if ok:
+            break
         bad = json.loads(rest[hwm - 1])
-        ctx.violation("C18/merge/trace", "trace line rejected by Trace_ErrorAlgebra (random tree, %d leaves)" % len(bad["leaves"]),
-                      {"trace_line": bad})
+        what = "random tree, %d leaves" % len(bad["leaves"]) if bad["ev"] == "case" else "single error %s" % json.dumps(bad["scase"], sort_keys=True)
+        ctx.violation("C18/merge/trace" if bad["ev"] == "case" else "C18/status/trace",
+                      "trace line rejected by Trace_ErrorAlgebra (%s)" % what, {"trace_line": bad})
         fails += 1
         rest = rest[hwm:]
+        base += hwm
         if fails >= maxfail:
+            ctx.notes.append("trace validation stopped after %d rejected lines; %d lines not validated" % (fails, len(rest)))
             break
     for l in lines:
-        c = json.loads(l)
-        nontrivial.add(core.canon([c["leaves"], c["tree"]]))
+        nontrivial.add(case_key(json.loads(l)))
         ctx.cov["evaluations"] += 1
     ctx.sample({"trace_event": json.loads(lines[0])})
 
@@ -126,26 +188,49 @@ def validate_trace(ctx, lines, nontrivial, maxfail=5):
 def selftest(ctx, lines):
     """Binding demonstrated: corrupt one recorded field of an accepted trace -> must be rejected."""
     import os
-    ls = [json.loads(l) for l in lines[:50]]
-    target = next((i for i, c in enumerate(ls) if c["obs"].get("kind") == "merged" and len(c["obs"].get("msgs", [])) >= 2), None)
-    if target is None:
-        return
-    ls[target]["obs"]["msgs"] = list(reversed(ls[target]["obs"]["msgs"]))
-    d = ctx.subdir("selftest")
-    p = os.path.join(d, "trace.ndjson")
-    open(p, "w").write("".join(json.dumps(c) + "\n" for c in ls))
-    ok, hwm, _ = ctx.trace_validate("trace/Trace_ErrorAlgebra", "trace/Trace_ErrorAlgebra.cfg", p, label="selftest")
-    res = {"corrupted_line": target + 1, "rejected_at": hwm, "ok": (not ok and hwm == target + 1)}
-    ctx.cov.setdefault("trace_selftests", []).append(res)
-    if not res["ok"]:
-        raise core.Infra("trace self-test failed: corrupted line %d, TLC stopped at %s" % (target + 1, hwm))
+    import copy
+    first = [json.loads(l) for l in lines[:50]]
+    stat = [json.loads(l) for l in lines if '"ev":"status"' in l.replace(" ", "")][:10]
+
+    def merged_msgs(ls):
+        t = next((i for i, c in enumerate(ls) if c["obs"].get("kind") == "merged" and len(c["obs"].get("msgs", [])) >= 2), None)
+        if t is not None:
+            ls[t]["obs"]["msgs"] = list(reversed(ls[t]["obs"]["msgs"]))
+        return t
+
+    def roundtrip_name(ls):
+        t = next((i for i, c in enumerate(ls) if c["obs"].get("kind") == "merged"), None)
+        if t is not None:
+            ls[t]["obs"]["wire"]["gresp"]["name"] = "fault"
+        return t
+
+    def status_code(ls):
+        if not ls:
+            return None
+        ls[-1]["obs"]["grpc"] = 3
+        return len(ls) - 1
+
+    for name, src, corrupt in (("merged message order", first, merged_msgs), ("round-trip name", first, roundtrip_name),
+                               ("single error gRPC code", stat, status_code)):
+        ls = copy.deepcopy(src)
+        target = corrupt(ls)
+        if target is None:
+            continue
+        d = ctx.subdir("selftest")
+        p = os.path.join(d, "trace.ndjson")
+        open(p, "w").write("".join(json.dumps(c) + "\n" for c in ls))
+        ok, hwm, _ = ctx.trace_validate("trace/Trace_ErrorAlgebra", "trace/Trace_ErrorAlgebra.cfg", p, label="selftest")
+        res = {"corruption": name, "corrupted_line": target + 1, "rejected_at": hwm, "ok": (not ok and hwm == target + 1)}
+        ctx.cov.setdefault("trace_selftests", []).append(res)
+        if not res["ok"]:
+            raise core.Infra("trace self-test (%s) failed: corrupted line %d, TLC stopped at %s" % (name, target + 1, hwm))
 
 
 def replay(ctx, rp):
     case = rp["case"]
     if "vector" in case:
         v = case["vector"]
-        obs, _, _ = ctx.drive("drivers/errors", [{k: v[k] for k in v if k != "pred"}])
+        obs, _, _ = ctx.drive("drivers/errors", [{k: v[k] for k in v if k not in ("pred", "alt")}])
         d = core.deep_diff(norm(v["pred"]), norm(obs[0]["obs"]))
         print("predicted:", json.dumps(norm(v["pred"]), sort_keys=True))
         print("observed: ", json.dumps(norm(obs[0]["obs"]), sort_keys=True))
